@@ -1,4 +1,5 @@
-"""Run ONE detector alone in a fresh interpreter: reads {class, params, stream, seed, history_callback} from stdin, prints its observation tokens as JSON."""
+"""Run detectors alone in a fresh interpreter: reads {class, params, stream, seed, history_callback} - or {"batch": [such requests]} - from stdin,
+prints the observation tokens (a list per request) as JSON."""
 import json
 import sys
 from pathlib import Path
@@ -8,14 +9,22 @@ import common  # noqa: E402,F401
 import dets  # noqa: E402
 from common import np  # noqa: E402
 
+
+def one(req):
+    cb = None
+    if req.get("history_callback"):
+        from frouros.callbacks.streaming import HistoryConceptDrift
+        cb = [HistoryConceptDrift(name="h")]
+    if req.get("seed") is not None:
+        np.random.seed(req["seed"])
+    r = dets.Runner("a", req["class"], req["params"], callbacks=cb)
+    for x in req["stream"]:
+        if x == "r":
+            r.reset()
+        else:
+            r.update(x)
+    return r.obs
+
+
 req = json.loads(sys.stdin.read())
-cb = None
-if req.get("history_callback"):
-    from frouros.callbacks.streaming import HistoryConceptDrift
-    cb = [HistoryConceptDrift(name="h")]
-if req.get("seed") is not None:
-    np.random.seed(req["seed"])
-r = dets.Runner("a", req["class"], req["params"], callbacks=cb)
-for x in req["stream"]:
-    r.update(x)
-print(json.dumps(r.obs))
+print(json.dumps([one(q) for q in req["batch"]] if "batch" in req else one(req)))
